@@ -282,7 +282,7 @@ def build_cases(ctx):
     quick = ctx.tier == "quick"
     bases = []                                   # (production label, tokens)
     bases += G.systematic_docs(gen, per_combo=1 if quick else 3)
-    for _ in range(60 if quick else 600):
+    for _ in range(100 if quick else 600):
         d = gen.document()
         if d is not None:
             bases.append(("random-document", d))
@@ -295,7 +295,7 @@ def build_cases(ctx):
             cases.append(h)
 
     n_mut = Counter()
-    budget = 600 if quick else 10 ** 9          # mutants per base document in the quick tier (sampled evenly)
+    budget = 1500 if quick else 10 ** 9          # mutants per base document in the quick tier (sampled evenly)
     for label, toks in bases:
         add(label, "base", G.render(toks))
         for sep in G.SEPARATORS[1:]:
@@ -372,7 +372,7 @@ def run(ctx):
         "(systematic_docs) plus random documents of 1-3 definitions; each document of at most 40 tokens is "
         "mutated with every mutator at every position (delete, duplicate, swap with the right neighbour, replace by "
         "each of %d punctuators/keywords/token kinds, insert each of %d punctuators; in the quick tier an even sample "
-        "of at most 600 mutants per document); every base document is also rendered with 5 other separators (comma, "
+        "of at most 1500 mutants per document); every base document is also rendered with 5 other separators (comma, "
         "newline, comment, BOM); the %d files of crates/apollo-parser/test_data/parser/{ok,err} and, for those of at "
         "most 40 tokens, their punctuator mutants.  Every case counts (distinct by text)."
         % (len(G.REPLACEMENTS), len(G.PUNCT), nfiles))
